@@ -21,6 +21,8 @@ LAT = {
     "default": dict(place_latency=0.120, cancel_latency=0.170, update_latency=0.150, replace_latency=0.280),
     "zero": dict(place_latency=0.0, cancel_latency=0.0, update_latency=0.0, replace_latency=0.0),
     "large": dict(place_latency=1.0, cancel_latency=0.021, update_latency=0.119, replace_latency=0.100),
+    # placements sent asynchronously (config.async_place_orders): the simulated delay is the same
+    "default-async": dict(place_latency=0.120, cancel_latency=0.170, update_latency=0.150, replace_latency=0.280, async_place_orders=True),
 }
 KINDS = ("place", "cancel", "update", "replace", "place+cancel", "cancel+place", "replace+cancel2", "cancel2+update", "place+cancel2")
 LIQ = [[2.3, 10]]  # a BACK at 2.3 fills against it; trades at 2.2 are not eligible for a BACK at 2.3
@@ -347,6 +349,8 @@ def run(tier):
             for kind in ("place", "replace", "place+cancel2"):
                 for bd0, ip_at, bd1 in ((1, None, None), (5, None, None), (0, 2, 1), (1, 2, 5), (5, 3, 1), (0, 3, 5)):
                     jobs.append((dts, kind, "default", bd0, ip_at, bd1, False))
+                    if kind == "place" and ip_at is None:
+                        jobs.append((dts, kind, "default-async", bd0, ip_at, bd1, False))
     # event-grouped pair
     for n in range(1, 3 if not thorough else 4):
         for dts in itertools.product((19, 120, 121, 171, 281, 1000), repeat=n):
